@@ -167,3 +167,33 @@ func verifPreferNatural(key []byte, counter, cc uint64, s, d int, alg Algorithm)
 		}
 	}
 }
+
+// The verdict depends only on the characters of the submitted code: the very string a
+// generation call returned and a copy of it are judged alike (real derivation, so that a code
+// string that is a view of reused scratch memory is seen).
+//
+//verif:harness prop=C03 name=samechars
+//verif:cases quick skew=0 digits=6,9
+//verif:cases thorough skew=0,1 digits=1,6,8,9,10
+//verif:replace github.com/ja7ad/otp.DecodeSecret=verifStub_DecodeSecret
+//verif:opt hmac=fresh maxpaths=4000
+func verifH_C03_samechars() {
+	key := verifBytes("key", 10)
+	p := &Param{Digits: Digits(verifCase("digits")), Algorithm: SHA1, Skew: uint(verifCase("skew"))}
+	cc, n := verifU64("cc"), verifU64("counter")
+	verifAssume(verifAnd(n >= 16, n < 1<<62))
+	verifPrefer(verifOr(cc > n+16, cc+16 < n)) // a code from far outside the window
+	code, gerr := GenerateHOTP(verifSecretFor(key, false), cc, p)
+	verifAssert(gerr == nil, "code-generated")
+	if gerr != nil {
+		return
+	}
+	cp := string(append([]byte{}, code...))
+	ok1, _ := ValidateHOTP(verifSecretFor(key, false), code, n, p)
+	ok2, _ := ValidateHOTP(verifSecretFor(key, false), cp, n, p)
+	verifObserve("ok2", ok2)
+	verifAssert(ok1 == ok2, "verdict-depends-only-on-the-characters-of-the-code")
+	if verifSymbolic() {
+		verifAssert(verifResultOwned(code), "generated-code-shares-no-memory-with-pools-or-package-state")
+	}
+}
